@@ -80,7 +80,7 @@ Def(sugar, e) ==
              env == [i \in DOMAIN it.params |-> <<it.params[i], e.args[i]>>]
              keep == SelectSeq(it.alts, LAMBDA a : CondHolds(a.cond, env))
          IN [j \in DOMAIN keep |-> [lhs |-> me, rhs |-> [i \in DOMAIN keep[j].rhs |-> Subst(keep[j].rhs[i], env)],
-                                    P |-> keep[j].P]]
+                                    P |-> keep[j].P, kind |-> it.kind]]
     [] e.k = "rep" /\ e.op = "+" ->
          << [lhs |-> me, rhs |-> << [e.s EXCEPT !.sel = FALSE] >>, P |-> SynP("vec1", <<Plain(1)>>)],
             [lhs |-> me, rhs |-> << [e EXCEPT !.sel = FALSE], [e.s EXCEPT !.sel = FALSE] >>,
@@ -116,7 +116,8 @@ BaseAlts(sugar) ==
       F[i \in 0..Len(plain)] ==
         IF i = 0 THEN <<>>
         ELSE F[i - 1] \o [j \in DOMAIN plain[i].alts |->
-                            [lhs |-> plain[i].name, rhs |-> plain[i].alts[j].rhs, P |-> plain[i].alts[j].P]]
+                            [lhs |-> plain[i].name, rhs |-> plain[i].alts[j].rhs, P |-> plain[i].alts[j].P,
+                             kind |-> plain[i].kind]]
   IN F[Len(plain)]
 
 Expansion(raw) == LET b == BaseAlts(raw.sugar)
@@ -126,6 +127,11 @@ RECURSIVE Dedup(_, _)
 Dedup(s, seen) == IF s = <<>> THEN <<>>
                   ELSE IF Head(s) \in seen THEN Dedup(Tail(s), seen)
                   ELSE <<Head(s)>> \o Dedup(Tail(s), seen \cup {Head(s)})
+
+KindOfName(raw, alts, n) ==
+  LET S == {i \in DOMAIN alts : alts[i].lhs = n} 
+      i0 == CHOOSE i \in S : TRUE
+  IN IF "kind" \in DOMAIN alts[i0] THEN alts[i0].kind ELSE "infer"
 
 MacroOk(raw) == Expansion(raw).ok
 
@@ -138,5 +144,6 @@ ApplyMacro(raw) ==
       G |-> [ts |-> raw.ts, nts |-> nts \o <<startp.lhs>>, prods |-> Append(prods, startp)],
       sp |-> Len(alts) + 1, n |-> raw.n, inject |-> raw.inject,
       P |-> Append([i \in DOMAIN alts |-> alts[i].P], SynP("start", <<Plain(1)>>)),
-      inl |-> <<>>]
+      inl |-> <<>>,
+      kinds |-> [i \in DOMAIN nts |-> KindOfName(raw, alts, nts[i])] \o <<"V">>]
 =============================================================================
